@@ -43,7 +43,7 @@ def meta(tier, seed):
                   "empty neighbourhood: all NaN and predict == arms[clone(row seed).choice(k, p)] (never a p=0 arm)",
         "bounds": {"grids": {"quick": ["1d n<=3", "2d6 n<=3 (n=3: 3 arm assignments)", "2dm n<=2"],
                              "thorough": ["1d n<=4", "2d9 n<=3", "2d6 n<=4", "2dm n<=3"]}[tier],
-                   "metrics": METRICS, "radii": "1, 2 and sqrt(2) (euclidean)", "k": "1..n",
+                   "metrics": METRICS, "radii": "every distance value occurring in the grid (euclidean: math.sqrt of the squared distance), at most 6", "k": "1..n",
                    "policies": LP_QUICK if tier == "quick" else LP_THOROUGH, "rewards": "row i rewarded 2^i (binary i%2 for Thompson)"},
         "assumptions": ["metrics whose distances are irrational on the grid are not checked at the boundary",
                         "the learning policy's own arithmetic is C01/C02's subject; here it is the reference"],
@@ -81,13 +81,17 @@ def dist(metric, a, b):
     return sum(v * v for v in d)       # sqeuclidean and euclidean (compared through squares)
 
 
-def radii(metric):
-    """[(radius passed to the library, integer threshold on dist())]"""
+def radii(metric, grid=None):
+    """[(radius passed to the library, integer threshold on dist())]: every distance value that occurs
+    between two points of the grid (so every stored row can sit exactly on the boundary), capped at 6 values.
+    euclidean: radius = math.sqrt(n) for the squared distance n - the very float cdist computes for that
+    distance, so 'on the boundary' is an exact float equality."""
+    vals = sorted({dist(metric, a, b) for a in grid for b in grid} - {0}) if grid else [1, 2, 4]
+    if len(vals) > 6:
+        vals = vals[:3] + vals[-3:]
     if metric == "euclidean":
-        return [(1.0, 1), (math.sqrt(2), 2), (2.0, 4)]
-    if metric == "sqeuclidean":
-        return [(1.0, 1), (2.0, 2), (4.0, 4)]
-    return [(1.0, 1), (2.0, 2)]
+        return [(math.sqrt(v), v) for v in vals]
+    return [(float(v), v) for v in vals]
 
 
 def assignments(n, tier):
@@ -255,7 +259,7 @@ def _run_shard(shard):
     g, n, metric, kind, ln, tier = shard["grid"], shard["n"], shard["metric"], shard["kind"], shard["ln"], shard["tier"]
     grid = GRIDS[g]
     acc = report.Acc(ID, replay, shard)
-    params = radii(metric) if kind == "rad" else [(k, None) for k in range(1, n + 1)]
+    params = radii(metric, grid) if kind == "rad" else [(k, None) for k in range(1, n + 1)]
     comps = comps_for(n, tier)
     for pts in itertools.product(grid, repeat=n):
         if shard.get("first") is not None and pts[0] != grid[shard["first"]]:
